@@ -320,6 +320,16 @@ v('C12 C08 C11', 'fire', F, '        time_delta = integrator.get_time() - time',
 v('C11', 'fire', F, 'q = np.hstack((gyro_model.v, accel_model.v, gyro_model.q, accel_model.q))', 'q = np.hstack((gyro_model.v, gyro_model.q, accel_model.v, accel_model.q))', 'seeded C11 (same as an own variant)')
 
 
+v('C14', 'fire', I, '        result = util.mv_prod(self.transform, readings)', '        result = readings.values @ self.transform', 'seeded C14: simulator applies the transposed transform')
+v('C14', 'silent', I, '        result = util.mv_prod(self.transform, readings)', '        result = readings.values @ self.transform.T', 'row-vector form of T @ x')
+v('C16', 'fire', T, """    lat = lat + p
+    lat[z < 0] *= -1
+    lat = np.rad2deg(lat)""", """    lat[z < 0] *= -1
+    lat = np.rad2deg(lat + p)""", 'seeded C16: Newton correction added after the hemisphere flip')
+v('C18', 'fire', T, 'if np.median(np.diff(first.index)) < np.median(np.diff(second.index)):', 'if np.median(np.diff(first.index)) > np.median(np.diff(second.index)):', 'seeded C18: the sparser table is interpolated')
+v('C18', 'silent', T, 'if np.median(np.diff(first.index)) < np.median(np.diff(second.index)):', 'if np.median(np.diff(second.index)) > np.median(np.diff(first.index)):', 'comparison written the other way round')
+
+
 # ----------------------------------------------------------------------- runner
 def _run_variant(args):
     prop, var, root, check_py = args
